@@ -4,6 +4,7 @@ import Proofs.C12Frame
 import Proofs.C12Vint
 import Proofs.C12Nest
 import Proofs.C12Decode
+import Proofs.C12Hist
 import Model.MarshalInterp
 /-!
 # C12 — encoded values are the CQL specification's encoding, byte for byte; conformant encodings decode
@@ -584,5 +585,46 @@ example : specDec 4 .decimal [0, 0, 0, 2, 128] = some (.decimal (-128) 2) := by
   have h1 : tcDec [128] = -128 := by decide
   have h2 : tcDec [0, 0, 0, 2] = 2 := by decide
   simp [specDec, minimalTC, h1, h2]
+
+/-! ## histories inside one process: the same Go type marshalled for several type descriptions -/
+
+open MarshalMemo in
+/-- HISTORY INDEPENDENCE, for ALL call sequences: in the process of the code that exists (no state between calls:
+    `pureRun`, the machine op `hist` is answered with, `F` = the specification's answer to the call's own protocol,
+    type description and Go value) the answers to the calls `cs` are the same whatever calls `h` were made before
+    them in the same process — same Go type under other UDT definitions (reordered / renamed / added fields),
+    other tuple arities, other element types — and each is `F` of its own call -/
+theorem C12_history_independent {α β : Type} (F : α → β) (h cs : List α) :
+    (pureRun F () (h ++ cs)).drop h.length = pureRun F () cs ∧ pureRun F () cs = cs.map F := by
+  simp [C12Hist.pureRun_eq]
+
+open MarshalMemo in
+/-- … and for every implementation that REMEMBERS a resolution (struct field ↔ UDT field, …) in per-process state:
+    if every cache hit it accepts gives the stateless answer, all answers of all sequences are the stateless ones -/
+theorem C12_memo_sound {α β ρ κ : Type} [DecidableEq κ] (M : Memo α β ρ κ)
+    (hs : ∀ a a', M.key a' = M.key a → M.valid (M.resolve a') a = true → M.apply (M.resolve a') a = M.direct a)
+    (as : List α) : M.run [] as = as.map M.direct :=
+  C12Hist.memo_run M hs as [] (C12Hist.inv_nil M)
+
+open MarshalMemo in
+/-- non-vacuity: a cache keyed by (UDT field names, struct tags) meets the hypothesis -/
+example (as : List UCall) : soundUdt.run [] as = as.map soundUdt.direct := by
+  apply C12_memo_sound
+  intro a a' hk _
+  simp only [soundUdt, Prod.mk.injEq] at hk
+  simp [Memo.direct, soundUdt, udtResolve, hk.1, hk.2]
+
+open MarshalMemo in
+/-- FULL STATEMENT "every memo is history independent" is false. Kernel-checked: the field resolution cached per
+    (struct type, keyspace, type name) and re-used when the number of fields agrees — the struct {a:10, b:20} for
+    the definition (a, b) and then for the look-alike definition (b, a): the second value is written in the stale
+    order 10 20 instead of 20 10.  Each call alone, or the look-alike first, is right: only a SEQUENCE shows it
+    (= the replay shape of op `hist`) -/
+theorem C12_cex_stale_udt_cache :
+    staleUdt.run [] [([1, 2], [1, 2], [10, 20]), ([2, 1], [1, 2], [10, 20])] = [[10, 20], [10, 20]] ∧
+    [([1, 2], [1, 2], [10, 20]), ([2, 1], [1, 2], [10, 20])].map staleUdt.direct = [[10, 20], [20, 10]] ∧
+    staleUdt.run [] [([2, 1], [1, 2], [10, 20])] = [[20, 10]] ∧
+    soundUdt.run [] [([1, 2], [1, 2], [10, 20]), ([2, 1], [1, 2], [10, 20])] = [[10, 20], [20, 10]] := by
+  decide
 
 end C12
